@@ -95,11 +95,19 @@ func corpus() []*Case {
 			Then:     []XStep{step("upgrade", bsc(nil), "bsc")}}},
 		&Case{Kind: "gen_xibc", GenX: &GenXSpec{Native: hx("teleport"), Clients: []GXClient{{Chain: hx("chain-a"), CS: tm}},
 			Metadata: []GXMeta{{Chain: hx("chain-a"), Items: []GXItem{{Key: hx("k"), ValLen: 0}}}}}},
+		&Case{Kind: "gen_xibc", GenX: &GenXSpec{Native: hx("teleport"), Clients: []GXClient{{Chain: hx("chain-a"), CS: tm}},
+			Metadata: []GXMeta{{Chain: hx("chain-a"), Items: []GXItem{{Key: "", ValLen: 3}}}}}},
+		&Case{Kind: "gen_xibc", GenX: &GenXSpec{Native: hx("teleport"),
+			Receipts: []GXPacket{{Src: hx("chain-a"), Dst: hx("chain-b"), Seq: 1, DataLen: 0}}, Acks: []GXPacket{{Src: hx("chain-a"), Dst: hx("chain-b"), Seq: 1, DataLen: 2}}}},
+		&Case{Kind: "gen_xibc", GenX: &GenXSpec{Native: hx("teleport"), Acks: []GXPacket{{Src: hx("chain-a"), Dst: hx("chain-b"), Seq: 1, DataLen: 0}}}},
 		&Case{Kind: "gen_agg", GenA: &GenASpec{EnableAggregate: true, EnableEVMHook: true, Pairs: []GAPair{{Erc20: hx(hexAddrs[1]), Denoms: nil, Enabled: true, Owner: 1}}}},
 		&Case{Kind: "gen_agg", GenA: &GenASpec{EnableAggregate: true, EnableEVMHook: true, Pairs: []GAPair{{Erc20: hx(hexAddrs[1]), Denoms: []string{hx("ucoin"), hx("uother")}, Enabled: true, Owner: 1}}}},
 		&Case{Kind: "gen_rv", GenR: &GenRSpec{Enable: true, Rewards: []Pair{{"atele", "5"}}, From: hx(good), InitReward: []Pair{{"atele", "100"}}, FromBal: []Pair{{"atele", "100"}}}},
 		&Case{Kind: "gen_rv", GenR: &GenRSpec{Enable: true, Rewards: []Pair{{"atele", "5"}}, From: hx(good), InitReward: []Pair{{"atele", "100"}}, FromBal: []Pair{{"atele", "99"}}}},
 		&Case{Kind: "gen_rv", GenR: &GenRSpec{Enable: true, Rewards: []Pair{{"atele", "5"}, {"atele", "7"}}, From: hx("")}},
+		&Case{Kind: "gen_rv", GenR: &GenRSpec{Enable: true, Rewards: []Pair{{"atele", "5"}}, From: hx(good), InitReward: []Pair{{"atele", "5"}, {"atele", "5"}}, FromBal: []Pair{{"atele", "100"}}}},
+		&Case{Kind: "gen_rv", GenR: &GenRSpec{Enable: true, Rewards: []Pair{{"atele", "5"}}, From: hx(good), InitReward: []Pair{{"stake", "5"}, {"atele", "5"}}, FromBal: []Pair{{"atele", "100"}, {"stake", "100"}}}},
+		&Case{Kind: "gen_rv", GenR: &GenRSpec{Enable: true, Rewards: []Pair{{"atele", "5"}}, From: hx(good), InitReward: []Pair{{"atele", "0"}}, FromBal: []Pair{{"atele", "100"}}}},
 	)
 	// aggregate: one valid proposal of every type in the state that lets it reach its deepest code
 	astep := func(op string, f func(s *AStep)) AStep {
